@@ -96,7 +96,7 @@ example : ks (runRing 10 0 [mk 1000 20 100000, mk 2000 30 300000, mk 3000 40 400
     = [(1000, 20, 100000), (1500, 25, 200000), (2000, 30, 300000), (3000, 40, 400000)] := by decide
 
 private def full10 : List In :=
-  (List.range 10).map fun i => mk (1000 * (i + 1)) (10 * (i + 1)) (100000 * (i + 1))
+  (List.range 10).map fun (i : Nat) => mk (1000 * ((i : Int) + 1)) (10 * ((i : Int) + 1)) (100000 * ((i : Int) + 1))
 
 example : ks (runRing 10 0 (full10 ++ [mk 5500 55 550000]))
     = [(2000, 20, 200000), (3000, 30, 300000), (4000, 40, 400000), (5000, 50, 500000), (5500, 55, 550000),
